@@ -26,13 +26,13 @@ Proof.
   - intros n e He. apply alookup_In in He. apply (Hkeys n e He).
 Qed.
 
-Lemma step_f_session : forall tord bord fuel pfuel p s sets,
-  step_f tord bord fuel pfuel p s (OSession sets false) =
+Lemma step_f_session : forall tord bord pord fuel pfuel p s sets,
+  step_f tord bord pord fuel pfuel p s (OSession sets false) =
   let s := set_log s [] in
   let s0 := set_ts s (s_ts s + 1)%N in
   let '(s1, rs, batch) := fold_left fsess_step sets (s0, [], []) in
   let s3 := set_visited (set_stat s1 0%N) [] in
-  match propagate pfuel s3 batch with
+  match propagate_o pord pfuel s3 batch with
   | Ok s4 => (s4, mkRes (RSession rs) (rev (s_log s4)) None)
   | _ => (s3, mkRes RFuel [] None)
   end.
@@ -41,14 +41,14 @@ Proof.
   match goal with |- context [fold_left ?F sets ?A] => destruct (fold_left F sets A) as [[s1 rs] batch] end.
   reflexivity.
 Qed.
-Lemma step_f_session_gen : forall tord bord fuel pfuel p s sets refresh,
-  step_f tord bord fuel pfuel p s (OSession sets refresh) =
+Lemma step_f_session_gen : forall tord bord pord fuel pfuel p s sets refresh,
+  step_f tord bord pord fuel pfuel p s (OSession sets refresh) =
   let s := set_log s [] in
   let s0 := set_ts s (s_ts s + 1)%N in
   let '(s1, rs, batch) := fold_left fsess_step sets (s0, [], []) in
   let '(s2, batch2) := if refresh then fold_left refresh_step (s_ext s1) (s1, batch) else (s1, batch) in
   let s3 := set_visited (set_stat s2 0%N) [] in
-  match propagate pfuel s3 batch2 with
+  match propagate_o pord pfuel s3 batch2 with
   | Ok s4 => (s4, mkRes (RSession rs) (rev (s_log s4)) None)
   | _ => (s3, mkRes RFuel [] None)
   end.
@@ -73,7 +73,7 @@ Proof. intros env s o s'. destruct o; reflexivity. Qed.
 
 Section Steps.
 Variable p : program.
-Variables tord bord : state -> node -> list node -> list node.
+Variables tord bord pord : state -> node -> list node -> list node.
 Variable rk : node -> nat.
 Hypothesis Hrk : forall n e d, alookup p n = Some e -> In d (expr_reads e) -> (rk d < rk n)%nat.
 Hypothesis Hproj : forall n e d, alookup p n = Some e -> nkind n = KProjection -> In d (expr_reads e) ->
@@ -81,18 +81,19 @@ Hypothesis Hproj : forall n e d, alookup p n = Some e -> nkind n = KProjection -
 Hypothesis Hkeys : forall n e, alookup p n = Some e -> is_mexec_kind (nkind n) = true.
 Hypothesis Htord : forall s x l y, In y (tord s x l) <-> In y l.
 Hypothesis Hbord : forall s x l y, In y (bord s x l) <-> In y l.
+Hypothesis Hpord : forall s x l y, In y (pord s x l) <-> In y l.
 
 (** the invariant between operations: every operation starts by emptying the log *)
 Definition BInv (env : menv) (s : state) : Prop := MInv p rk (set_log s []) [] env (set_log s []).
 
 Lemma root_query : forall fuel env s n o fr ms s1,
   BInv env s ->
-  query_for_o p None tord bord fuel [] CUser None n (set_log s []) = Ok (o, fr, ms, s1) ->
+  query_for_o p None tord bord pord fuel [] CUser None n (set_log s []) = Ok (o, fr, ms, s1) ->
   MInv p rk (set_log s []) [] env s1 /\
   exists i, get_info s1 n = Some i /\ i_verified i = s_ts s1 /\ o = QValue (Some (i_value i)).
 Proof.
   intros fuel env s n o fr ms s1 HI0 Eq.
-  destruct (proj1 (msound_all p tord bord rk (set_log s []) Hrk Hproj Hkeys Htord Hbord fuel) env [] [] [] CUser None n _ o fr ms s1
+  destruct (proj1 (msound_all p tord bord pord rk (set_log s []) Hrk Hproj Hkeys Htord Hbord Hpord fuel) env [] [] [] CUser None n _ o fr ms s1
               HI0 (StkR_nil p n) (fun _ => eq_refl) I eq_refl (or_introl eq_refl) Eq)
     as (HI1 & _ & _ & i & Hi & Hv & Ho).
   split; [exact HI1|]. exists i. split; [exact Hi|]. split; [exact Hv|]. exact (Ho eq_refl).
@@ -119,7 +120,7 @@ Qed.
 
 (** one operation keeps the invariant (a session must not have run out of fuel) *)
 Lemma mstep_inv : forall fuel pfuel s o s' r env,
-  BInv env s -> step_f tord bord fuel pfuel p s o = (s', r) ->
+  BInv env s -> step_f tord bord pord fuel pfuel p s o = (s', r) ->
   (forall sets b, o = OSession sets b -> r_out r <> RFuel) ->
   BInv (env_step env s o s') s'.
 Proof.
@@ -129,11 +130,11 @@ Proof.
       as [[s1 rs] batch] eqn:Ef.
     destruct (if b then fold_left refresh_step (s_ext s1) (s1, batch) else (s1, batch)) as [s2 batch2] eqn:Er.
     destruct (session_MSess _ _ _ _ _ _ _ _ _ s' HI0 Ef Er) as [HS2 _].
-    destruct (propagate pfuel (set_visited (set_stat s2 0%N) []) batch2) as [s4| | |] eqn:Ep;
+    destruct (propagate_o pord pfuel (set_visited (set_stat s2 0%N) []) batch2) as [s4| | |] eqn:Ep;
       inversion H; subst; try (exfalso; eapply Hfuel; eauto; reflexivity).
-    eapply (MInv_of_MSess p rk Hrk Hproj _ env); eauto.
+    eapply (MInv_of_MSess p rk Hrk Hproj pord Hpord _ env); eauto.
   - unfold step_f in H. cbn [env_step].
-    destruct (query_for_o p None tord bord fuel [] CUser None n (set_log s [])) as [[[[o fr] ms] s1]| | |] eqn:Eq.
+    destruct (query_for_o p None tord bord pord fuel [] CUser None n (set_log s [])) as [[[[o fr] ms] s1]| | |] eqn:Eq.
     + destruct (root_query _ _ _ _ _ _ _ _ HI0 Eq) as [HI1 _].
       destruct o as [[z|]|]; inversion H; subst; eapply BInv_of; exact HI1.
     + inversion H. subst. eapply BInv_of; exact HI0.
@@ -207,7 +208,7 @@ Proof.
 Qed.
 
 Lemma ri_step : forall fuel pfuel s o s' r env acc,
-  BInv env s -> RI s acc -> step_f tord bord fuel pfuel p s o = (s', r) ->
+  BInv env s -> RI s acc -> step_f tord bord pord fuel pfuel p s o = (s', r) ->
   (forall sets b, o = OSession sets b -> r_out r <> RFuel) ->
   RI s' (ext_step acc (o, r)).
 Proof.
@@ -218,9 +219,9 @@ Proof.
       as [[s1 rs] batch] eqn:Ef.
     destruct (if b then fold_left refresh_step (s_ext s1) (s1, batch) else (s1, batch)) as [s2 batch2] eqn:Er.
     destruct (session_MSess _ _ _ _ _ _ _ _ _ s' HI0 Ef Er) as [HS2 Ex].
-    destruct (propagate pfuel (set_visited (set_stat s2 0%N) []) batch2) as [s4| | |] eqn:Ep;
+    destruct (propagate_o pord pfuel (set_visited (set_stat s2 0%N) []) batch2) as [s4| | |] eqn:Ep;
       inversion H; subst s' r; try (exfalso; eapply (Hfuel sets b); reflexivity).
-    destruct (propagate_we _ _ _ _ Ep) as [Nw _]. pose proof (propagate_same _ _ _ _ Ep) as (N1 & _ & _ & N4 & _).
+    destruct (propagate_o_we _ _ _ _ _ Ep) as [Nw _]. pose proof (propagate_o_same _ _ _ _ _ Ep) as (N1 & _ & _ & N4 & _).
     cbn [set_visited set_stat s_world s_nodes s_log] in Nw, N1, N4.
     assert (Hl1 : s_log s1 = []).
     { rewrite (sess_fold_log _ _ _ _ _ _ _ Ef). reflexivity. }
@@ -244,9 +245,9 @@ Proof.
       * inversion Er. subst s2 batch2. rewrite N4, Hl1. cbn [rev nmem existsb].
         apply Rx. rewrite <- Hi. symmetry. rewrite (sess_fold_get _ _ _ _ _ _ _ (ext_node k) Ef); [reflexivity|discriminate].
   - cbn [world_op]. unfold step_f in H.
-    destruct (query_for_o p None tord bord fuel [] CUser None n (set_log s [])) as [[[[o fr] ms] s1]| | |] eqn:Eq.
+    destruct (query_for_o p None tord bord pord fuel [] CUser None n (set_log s [])) as [[[[o fr] ms] s1]| | |] eqn:Eq.
     + destruct (root_query _ _ _ _ _ _ _ _ HI0 Eq) as [HI1 _].
-      pose proof (proj1 (mworld_all p tord bord fuel) _ _ _ _ _ _ _ _ _ Eq) as HW. unfold Wd in HW. cbn [set_log s_world] in HW.
+      pose proof (proj1 (mworld_all p tord bord pord fuel) _ _ _ _ _ _ _ _ _ Eq) as [HW _]. cbn [set_log s_world] in HW.
       assert (Er : r_execs r = rev (s_log s1) /\ s' = s1) by (destruct o as [[z|]|]; inversion H; subst; auto).
       destruct Er as [Er Es']. subst s'. split; [cbn [snd]; congruence|].
       cbn [fst]. intros k i Hi. rewrite Er.
@@ -277,22 +278,22 @@ Qed.
 Lemma mrun_sound_x : forall fuel pfuel ops s env acc i n r z,
   BInv env s -> RI s acc ->
   (forall k sets b rk0, (k < i)%nat -> nth_error ops k = Some (OSession sets b) ->
-     nth_error (run_history_f tord bord fuel pfuel p s ops) k = Some rk0 -> r_out rk0 <> RFuel) ->
+     nth_error (run_history_f tord bord pord fuel pfuel p s ops) k = Some rk0 -> r_out rk0 <> RFuel) ->
   nth_error ops i = Some (OQuery n) ->
-  nth_error (run_history_f tord bord fuel pfuel p s ops) i = Some r ->
+  nth_error (run_history_f tord bord pord fuel pfuel p s ops) i = Some r ->
   r_out r = RValue z ->
   MSpecI p (fold_left apply_op (firstn i ops) (fst env),
-            fst (fold_left ext_step (combine (firstn (S i) ops) (firstn (S i) (run_history_f tord bord fuel pfuel p s ops))) acc)) n z.
+            fst (fold_left ext_step (combine (firstn (S i) ops) (firstn (S i) (run_history_f tord bord pord fuel pfuel p s ops))) acc)) n z.
 Proof.
   intros fuel pfuel. induction ops as [|o rest IH]; intros s env acc i n r z HI HR Hfuel Hop Hres Hz.
   - destruct i; discriminate.
-  - cbn [run_history_f] in Hres, Hfuel |- *. destruct (step_f tord bord fuel pfuel p s o) as [s' x] eqn:Es.
+  - cbn [run_history_f] in Hres, Hfuel |- *. destruct (step_f tord bord pord fuel pfuel p s o) as [s' x] eqn:Es.
     destruct i as [|i].
     + cbn in Hop, Hres. inversion Hop. inversion Hres. subst o x. cbn [firstn fold_left combine].
       assert (Hf0 : forall sets b, OQuery n = OSession sets b -> r_out r <> RFuel) by (intros; discriminate).
       pose proof (ri_step _ _ _ _ _ _ _ _ HI HR Es Hf0) as [_ HR'].
       unfold step_f in Es.
-      destruct (query_for_o p None tord bord fuel [] CUser None n (set_log s [])) as [[[[o fr] ms] s1]| | |] eqn:Eq;
+      destruct (query_for_o p None tord bord pord fuel [] CUser None n (set_log s [])) as [[[[o fr] ms] s1]| | |] eqn:Eq;
         try (inversion Es; subst; discriminate).
       destruct (root_query _ _ _ _ _ _ _ _ HI Eq) as (HI1 & i0 & Hi0 & Hv0 & ->).
       inversion Es. subst s' r. cbn [r_out] in Hz. inversion Hz. subst z.
@@ -315,20 +316,26 @@ End Steps.
 (** * C01 on the full model with external inputs, for every history and every fuel *)
 Theorem model_sound_x_f : model_sound_x_statement_f.
 Proof.
-  intros tord bord fuel pfuel p ops i n r z Ht Hb Hwf Hfuel Hop Hres Hz.
+  intros tord bord pord fuel pfuel p ops i n r z Ht Hb Hp Hwf Hfuel Hop Hres Hz.
   destruct (wf_model_x_facts p Hwf) as (rk & Hrk & Hproj & Hkeys). apply MdlSpecX_MSpecI.
   unfold inputs_after, ext_after.
-  apply (mrun_sound_x p tord bord rk Hrk Hproj Hkeys (order_ok_In _ Ht) (order_ok_In _ Hb)
+  apply (mrun_sound_x p tord bord pord rk Hrk Hproj Hkeys (order_ok_In _ Ht) (order_ok_In _ Hb) (order_ok_In _ Hp)
            fuel pfuel ops init_state init_env (no_ext, []) i n r z); auto.
   - apply (MInv_init p rk noE).
   - split; [reflexivity|]. intros k j Hj. discriminate.
 Qed.
+Theorem model_sound_x_op : model_sound_x_statement_op.
+Proof.
+  intros tord bord pord p ops i n r z Ht Hb Hp Hwf Hfuel Hop Hres Hz.
+  rewrite run_history_op_is_f in Hres. rewrite run_history_op_is_f.
+  eapply (model_sound_x_f tord bord pord fuel0 4000%nat); eauto.
+  intros k sets b rk0 Hk Hk1 Hk2. rewrite <- run_history_op_is_f in Hk2. eapply Hfuel; eauto.
+Qed.
+(** the dirty propagation in list order *)
 Theorem model_sound_x_o : model_sound_x_statement_o.
 Proof.
   intros tord bord p ops i n r z Ht Hb Hwf Hfuel Hop Hres Hz.
-  rewrite run_history_o_is_f in Hres. rewrite run_history_o_is_f.
-  eapply (model_sound_x_f tord bord fuel0 4000%nat); eauto.
-  intros k sets b rk0 Hk Hk1 Hk2. rewrite <- run_history_o_is_f in Hk2. eapply Hfuel; eauto.
+  exact (model_sound_x_op tord bord ord_id p ops i n r z Ht Hb ord_id_ok Hwf Hfuel Hop Hres Hz).
 Qed.
 (** the schedule in list order *)
 Theorem model_sound_x : model_sound_x_statement.
@@ -348,8 +355,8 @@ Qed.
 
 Theorem model_sound_g_f : model_sound_g_statement_f.
 Proof.
-  intros tord bord fuel pfuel p ops i n r z Ht Hb Hwf Hsc Hfuel Hop Hres Hz.
-  pose proof (model_sound_x_f tord bord fuel pfuel p ops i n r z Ht Hb (wf_model_x_of p Hwf) Hfuel Hop Hres Hz) as H.
+  intros tord bord pord fuel pfuel p ops i n r z Ht Hb Hp Hwf Hsc Hfuel Hop Hres Hz.
+  pose proof (model_sound_x_f tord bord pord fuel pfuel p ops i n r z Ht Hb Hp (wf_model_x_of p Hwf) Hfuel Hop Hres Hz) as H.
   apply MdlSpecX_MSpecI in H. apply MdlSpec_MSpecI.
   apply (msev_noext p _ no_ext (wf_model_g_noext p Hwf)) in H; [exact H|].
   intros d [<-|[]]. assert (Hn : op_in_scope (OQuery n)).
@@ -360,12 +367,12 @@ Theorem model_sound_g : model_sound_g_statement.
 Proof.
   intros p ops i n r z Hwf Hsc Hfuel Hop Hres Hz.
   rewrite run_history_is_f in Hres.
-  eapply (model_sound_g_f ord_id ord_id fuel0 4000%nat); eauto using ord_id_ok.
+  eapply (model_sound_g_f ord_id ord_id ord_id fuel0 4000%nat); eauto using ord_id_ok.
   intros k sets b rk0 Hk Hk1 Hk2. rewrite <- run_history_is_f in Hk2. eapply Hfuel; eauto.
 Qed.
 
 Theorem model_sound_f : model_sound_statement_f.
-Proof. intros tord bord fuel pfuel p ops i n r z Ht Hb Hwf. apply model_sound_g_f; auto. apply wf_model_g_of. exact Hwf. Qed.
+Proof. intros tord bord pord fuel pfuel p ops i n r z Ht Hb Hp Hwf. apply model_sound_g_f; auto. apply wf_model_g_of. exact Hwf. Qed.
 Theorem model_sound : model_sound_statement.
 Proof. intros p ops i n r z Hwf. apply model_sound_g. apply wf_model_g_of. exact Hwf. Qed.
 
@@ -461,20 +468,21 @@ Definition mex_hist2 : list op :=
   [ OSession [(0%N, 1); (1%N, 1); (2%N, 10)] false; OQuery (mex_N 1);
     OSession [(1%N, 3); (0%N, 4)] false; OQuery (mex_N 1) ].
 Example mex_run_rev :
-  map r_out (run_history_o ord_rev ord_rev mex_prog init_state mex_hist) =
+  map r_out (run_history_op ord_rev ord_rev ord_rev mex_prog init_state mex_hist) =
   map r_out (run_history mex_prog init_state mex_hist) /\
-  map r_out (run_history_o ord_rev ord_rev mex_prog init_state mex_hist2) =
+  map r_out (run_history_op ord_rev ord_rev ord_rev mex_prog init_state mex_hist2) =
   map r_out (run_history mex_prog init_state mex_hist2) /\
   map r_execs (run_history_o ord_rev ord_rev mex_prog init_state mex_hist2) <>
   map r_execs (run_history mex_prog init_state mex_hist2).
 Proof. split; [vm_compute; reflexivity|]. split; [vm_compute; reflexivity|vm_compute; discriminate]. Qed.
-(** the hypothesis on the oracles is needed: an oracle that drops tasks (either kind) makes the
-    fifth operation answer the stale 12 instead of 13 *)
+(** the hypothesis on the oracles is needed: an oracle that drops tasks (any of the three kinds)
+    makes the fifth operation answer the stale 12 instead of 13 *)
 Definition ord_nil : oracle := fun _ _ _ => [].
 Example mex_order_needed :
   nth_error (map r_out (run_history mex_prog init_state mex_hist)) 4 = Some (RValue 13) /\
   nth_error (map r_out (run_history_o ord_nil ord_id mex_prog init_state mex_hist)) 4 = Some (RValue 12) /\
-  nth_error (map r_out (run_history_o ord_id ord_nil mex_prog init_state mex_hist)) 4 = Some (RValue 12).
+  nth_error (map r_out (run_history_o ord_id ord_nil mex_prog init_state mex_hist)) 4 = Some (RValue 12) /\
+  nth_error (map r_out (run_history_op ord_id ord_id ord_nil mex_prog init_state mex_hist)) 4 = Some (RValue 12).
 Proof. repeat split; vm_compute; reflexivity. Qed.
 
 (** * example with unordered groups (a projection over a group of firewalls) *)
